@@ -15,5 +15,5 @@ def run(tier):
     chk.add(exhaustive=full, rule=('every wall minute of 2000..2049 of every zone' if full else
             'every wall minute within +-200 min of every transition of every zone plus %d seeded random wall minutes per zone' % nrandom) +
             ', each change of the result bisected to the second; run-length traces judged by TLC against TzSem.tla Allowed(w, policy)')
-    chk.assume('wall times within 16 h of the ends of [2000, 2050) are out of scope (their candidate instants may leave the supported range)')
+    chk.assume('local date-times of the years 2000..2049; their instants may fall up to a day outside [2000, 2050), where the model keeps walking')
     return chk.finish()
